@@ -12,3 +12,5 @@ import MicroHttp.Props.Tables
 #print axioms MicroHttp.Tables.no_shared_state
 #print axioms MicroHttp.Tables.no_interior_mutability
 #print axioms MicroHttp.Tables.conn_new
+#print axioms MicroHttp.Tables.conn_fields
+#print axioms MicroHttp.Tables.response_fields
